@@ -716,6 +716,30 @@ func genQ(r *rand.Rand, depth int) *qnode {
 		}
 		return q
 	}
+	if r.Intn(5) == 0 {
+		// a join that usually succeeds: both sides aggregated by the labels they are matched on
+		var g []string
+		for _, nm := range []string{"a", "b", "pod"} {
+			if r.Intn(2) == 0 {
+				g = append(g, nm)
+			}
+		}
+		if len(g) == 0 {
+			g = []string{"a"}
+		}
+		side := func(m string) *qnode {
+			return &qnode{K: "agg", Op: common.Pick(r, "sum", "max", "count"), Labels: g,
+				E: &qnode{K: "sel", Matchers: []qmatcher{{Name: "__name__", Value: m}}}}
+		}
+		b := &qnode{K: "bin", Op: common.Pick(r, "+", "-", "*"), On: r.Intn(3) > 0, L: side("m1"), R: side("m2")}
+		if b.On {
+			b.Labels = g
+		}
+		if depth > 1 && r.Intn(2) == 0 {
+			return &qnode{K: "agg", Op: common.Pick(r, "sum", "max"), Labels: g[:1], E: b}
+		}
+		return b
+	}
 	if r.Intn(4) == 0 {
 		b := &qnode{K: "bin", Op: common.Pick(r, "+", "-", "*"), On: r.Intn(2) == 0, L: genQ(r, depth-1), R: genQ(r, depth-1)}
 		for _, nm := range []string{"a", "b", "c", "pod", "__name__", "job"} {
